@@ -55,7 +55,13 @@ func genWasiScript(r *core.Rng, nInst, n int) []wop {
 	for k := 0; k < n; k++ {
 		i := r.Intn(nInst)
 		fd := uint32(3 + r.Intn(6)) // 3 is the preopen; 4.. are opened files
-		switch r.Intn(12) {
+		switch r.Intn(16) {
+		case 12, 13:
+			out = append(out, wop{Inst: i, Op: "random", B: uint32(1 + r.Intn(24))})
+		case 14:
+			out = append(out, wop{Inst: i, Op: "clock", A: uint32(r.Intn(2))})
+		case 15:
+			out = append(out, wop{Inst: i, Op: "args"})
 		case 0, 1, 2:
 			out = append(out, wop{Inst: i, Op: "open", S: names[r.Intn(len(names))], A: uint32(r.Intn(4))}) // A: bit0 creat, bit1 trunc
 		case 3:
@@ -93,11 +99,14 @@ func mkTree(dir string, idx int) {
 	os.WriteFile(filepath.Join(dir, "sub", "d.txt"), []byte("dddddddddddd"), 0o644)
 }
 
-func newWasiInst(ctx context.Context, rt wazero.Runtime, cm wazero.CompiledModule, root string, idx int, name string) (*wasiInst, error) {
+func newWasiInst(ctx context.Context, rt wazero.Runtime, cm wazero.CompiledModule, base wazero.ModuleConfig, root string, idx int, name string) (*wasiInst, error) {
 	in := &wasiInst{out: &bytes.Buffer{}, errb: &bytes.Buffer{}, ctx: ctx}
 	in.dir = filepath.Join(root, name)
 	mkTree(in.dir, idx)
-	cfg := wazero.NewModuleConfig().WithName(name).WithStdout(in.out).WithStderr(in.errb).
+	if base == nil {
+		base = wazero.NewModuleConfig()
+	}
+	cfg := base.WithName(name).WithStdout(in.out).WithStderr(in.errb).
 		WithStdin(strings.NewReader(fmt.Sprintf("stdin-of-instance-%d-abcdefghijklmnopqrstuvwxyz", idx))).
 		WithFSConfig(wazero.NewFSConfig().WithDirMount(in.dir, "/")).WithArgs("prog", fmt.Sprint(idx))
 	mod, err := rt.InstantiateModule(ctx, cm, cfg)
@@ -173,6 +182,19 @@ func (in *wasiInst) do(o wop) {
 			off = 0
 		}
 		ev = fmt.Sprintf("seek(%d,%d) -> errno=%d off=%d", o.A, o.B, errno, off)
+	case "random": // default (deterministic) random source: per instance, as if it were alone
+		mem.Write(4200, bytes.Repeat([]byte{0x55}, 32))
+		errno := in.call("random_get", 4200, uint64(o.B))
+		data, _ := mem.Read(4200, 32)
+		ev = fmt.Sprintf("random(%d) -> errno=%d data=%x", o.B, errno, data)
+	case "clock": // default (fake) clocks advance per instance
+		errno := in.call("clock_time_get", uint64(o.A), 0, 4300)
+		t, _ := mem.ReadUint64Le(4300)
+		ev = fmt.Sprintf("clock(%d) -> errno=%d t=%d", o.A, errno, t)
+	case "args":
+		errno := in.call("args_get", 4400, 4500)
+		data, _ := mem.Read(4500, 16)
+		ev = fmt.Sprintf("args -> errno=%d data=%q", errno, data)
 	case "renumber":
 		ev = fmt.Sprintf("renumber(%d,%d) -> %d", o.A, o.B, in.call("fd_renumber", uint64(o.A), uint64(o.B)))
 	case "fdstat":
@@ -236,8 +258,15 @@ func wasiChild(in json.RawMessage) any {
 	// group run
 	rt, cm := mkRt()
 	group := make([]*wasiInst, nInst)
+	// two groups out of three derive every instance's configuration from ONE base ModuleConfig (the usual embedder
+	// pattern); the lone replays always start from a fresh one
+	var base wazero.ModuleConfig
+	if gc.Seed%3 != 0 {
+		base = wazero.NewModuleConfig().WithEnv("SHARED", "base")
+		res.Shape += ",shared-base-config"
+	}
 	for i := range group {
-		g, err := newWasiInst(ctx, rt, cm, filepath.Join(root, "group"), i, fmt.Sprintf("inst%d", i))
+		g, err := newWasiInst(ctx, rt, cm, base, filepath.Join(root, "group"), i, fmt.Sprintf("inst%d", i))
 		if err != nil {
 			res.Sig, res.Detail = "wasi:instantiate-failed", err.Error()
 			rt.Close(ctx)
@@ -271,7 +300,11 @@ func wasiChild(in json.RawMessage) any {
 	// lone replays
 	for i := range group {
 		rt, cm := mkRt()
-		lone, err := newWasiInst(ctx, rt, cm, filepath.Join(root, fmt.Sprintf("lone%d", i)), i, fmt.Sprintf("inst%d", i))
+		var loneBase wazero.ModuleConfig
+		if base != nil {
+			loneBase = wazero.NewModuleConfig().WithEnv("SHARED", "base")
+		}
+		lone, err := newWasiInst(ctx, rt, cm, loneBase, filepath.Join(root, fmt.Sprintf("lone%d", i)), i, fmt.Sprintf("inst%d", i))
 		if err != nil {
 			rt.Close(ctx)
 			continue
